@@ -128,6 +128,22 @@ pub fn c01_pins() -> Vec<Pin> {
     vec![
         // ---- fixed on this tree (regression probes: must stay silent)
         Pin {
+            name: "y_self_assign_flags",
+            src: "unsigned char r; void main() { r = 0; Y = Y; switch (Y) { case 0: r = 3; } }",
+            init: &[],
+            x: 0,
+            y: 161,
+            expect: &[("r", 0)],
+        },
+        Pin {
+            name: "flags_after_16bit_compare",
+            src: "unsigned short s; unsigned char r; void main() { r = 0; Y = 7; if (s < s || Y) r = 1; }",
+            init: &[("s", 254)],
+            x: 0,
+            y: 0,
+            expect: &[("r", 1)],
+        },
+        Pin {
             name: "else_after_short_circuit",
             src: "unsigned char g, h, s, t; void main() { if (X < g && h) s = 1; else if (h) t++; }",
             init: &[("g", 0), ("h", 0), ("s", 0), ("t", 5)],
